@@ -502,6 +502,13 @@ def run(ctx):
                 "categorical: every pair of series of length <= 3 over 3 categories, random series of length "
                 "1..60 over 2..6 categories with absent categories, ncat given/inferred; binary: every table "
                 "with counts 1..6 (1296), random tables with counts up to 1e6, odds ratio <, =, > 1; "
+                "stored representations (no Coq case, oracle only): the float64 series as strided / reversed / "
+                "column views, read-only, big-endian, lists, tuples, pandas Series over 7 kinds of index, ensembles "
+                "in Fortran order / sliced / DataFrame; category series as tuples, 8 integer types, bool, object, "
+                "views, Series; 2x2 tables in 17 containers / integer types over each type's whole range and as "
+                "returned by confusion_matrix; object histories: caller-owned arrays and one transform object "
+                "through 14 (30) steps of rewriting in place, parameter changes, calls in any order / twice / on "
+                "the same object / through views / with defaulted arguments; earlier results re-read after later calls; "
                 "non-trivial = distinct (function, options, size class, input class, outcome class) signature")
     ctx.trusted = cm.STD_TRUST + [
         "trans.forward is run by the implementation; the model receives the transformed series (C01/C02 cover the transforms)",
@@ -513,7 +520,9 @@ def run(ctx):
     ctx.tested_not_proved = [
         "binary64 values equal the real-number definitions to the stated tolerances (rational-arithmetic oracle)",
         "Spearman correlation and the ensemble mean/median (external library calls): correspondence + oracle only",
-        "the transforms themselves (trans.forward) - see C01/C02"]
+        "the transforms themselves (trans.forward) - see C01/C02",
+        "independence of the stored representation of the inputs and of earlier operations on the same "
+        "objects (the model is a function of values): tested with concrete inputs only"]
     proved = prove_stable(ctx)
     cm.use_impl()
     from hydrodiy.stat import metrics
@@ -952,13 +961,16 @@ def run(ctx):
         spec = gen_trans(rng, name)
         T = make_trans(spec)
         pnames = [str(v) for v in T.params.names]
-        O, S = np.zeros(n), np.zeros(n)
-        cur = {"obs": None, "sim": None, "spec": (name, [float(v) for v in T.params.values])}
+        O, S, E = np.zeros(n), np.zeros(n), np.zeros((n, 3))     # E: a 3-member ensemble around S
+        cur = {"obs": None, "sim": None, "ens": None, "spec": (name, [float(v) for v in T.params.values])}
         history, done, last = [], [], None
 
         def write(which, vals):
             (O if which == "obs" else S)[...] = vals
             cur[which] = [float(v) for v in vals]
+            if which == "sim":
+                cur["ens"] = gen_ens(cur["sim"], 3)
+                E[...] = cur["ens"]
 
         def fresh_pair():
             o, s, _ = gen_series(rng, n, n=n)
@@ -1011,11 +1023,15 @@ def run(ctx):
                 excl = rng.random() < 0.5
                 style = rng.choice(["positional", "keyword"] + (["default-trans"] if name == "Identity" else []))
                 form = {"call": "pair", "same-object": "same-object", "views": "views"}[kind]
+                if form == "pair" and key.startswith("corr") and rng.random() < 0.4:
+                    form = "ensemble"
             last = (key, fn, args, kw, excl, style, form)
             if form == "same-object":
                 a1, a2, vo, vs = O, O, cur["obs"], cur["obs"]
             elif form == "views":      # the kept memory seen through reversed views
                 a1, a2, vo, vs = O[::-1], S[::-1], cur["obs"][::-1], cur["sim"][::-1]
+            elif form == "ensemble":
+                a1, a2, vo, vs = O, E, cur["obs"], [list(r) for r in cur["ens"]]
             else:
                 a1, a2, vo, vs = O, S, cur["obs"], cur["sim"]
             cm.mark({"call": key + " (session)", "history": history, "obs": vo, "sim": vs, "transform": cur["spec"]})
@@ -1031,11 +1047,11 @@ def run(ctx):
                    "input_class": "object history: caller-owned arrays and one transform object reused"}
             done.append((fn, args, rec))
             ctx.count(("session", key, kind, style, len(done) > 1))
-            d = defn(key, rec["obs"], rec["sim"], cur["spec"], excl)
+            d = None if form == "ensemble" else defn(key, rec["obs"], rec["sim"], cur["spec"], excl)
             if d is not None:
                 orc["object history: score = definition on the current contents"] += 1
                 if res[0] != "ok" or not close(res[1], d[0], d[1]):
-                    touched = [w for w, arr in (("obs", O), ("sim", S)) if not same_bits(arr, cur[w])]
+                    touched = [w for w, arr in (("obs", O), ("sim", S), ("ens", E)) if not same_bits(arr, cur[w])]
                     fail(None, f"C04/{key.split('/')[0]}/object-history-not-the-definition",
                          f"{key}(trans={cur['spec']}, excludenull={excl}, {form}, {style}) = {res} at step "
                          f"{len(history)} of a sequence on the same array / transform objects (last steps: "
@@ -1047,8 +1063,9 @@ def run(ctx):
         # every recorded call again on fresh objects holding the same values
         for fn, args, rec in done:
             key, spec_k, excl = rec["call"], rec["transform"], rec["excludenull"]
+            sim1 = rec["sim"] if rec["arguments"] != "ensemble" else [r[0] for r in rec["sim"]]
             tol = rep_tolerance([float(v) for v in forward(spec_k, rec["obs"])],
-                                [float(v) for v in forward(spec_k, rec["sim"])], excl)
+                                [float(v) for v in forward(spec_k, sim1)], excl)
             ref = call_any(fn, np.array(rec["obs"], dtype=np.float64), np.array(rec["sim"], dtype=np.float64),
                            make_trans(spec_k), excl, *args)
             orc["object history: score = score of fresh objects with the same values"] += 1
@@ -1075,7 +1092,8 @@ def run(ctx):
                 extra.append({"kind": "binary", "table": r["table"]})
             elif r.get("call") == "confusion_matrix":
                 extra.append({"kind": "confusion", "obs": r["obs"], "sim": r["sim"], "ncat": r.get("ncat")})
-            elif "obs" in r and "sim" in r and "transform" in r:
+            elif "obs" in r and "sim" in r and "transform" in r and \
+                    not any(isinstance(v, (list, tuple)) for v in r["sim"]):
                 extra.append({"kind": "series", "obs": r["obs"], "sim": r["sim"],
                               "transform": r["transform"], "excludenull": r.get("excludenull", False)})
     corpus = extra + cm.load_corpus(PID)
@@ -1103,72 +1121,164 @@ def run(ctx):
 
     # ------------------------------------------------------------------
     # confusion matrix
-    def do_conf(obs, sim, ncat):
+    kept = {"conf": None, "bin": None}   # result of the previous call: found unchanged after the next one
+
+    def table_of(df):
+        rows = [int(v) for v in df.index]
+        cols = [int(v) for v in df.columns]
+        tab = [[int(v) if float(v) == int(v) else -999 for v in r] for r in df.values.tolist()]
+        return (rows, cols, tab)
+
+    def do_conf(obs, sim, ncat, rep=None):
+        """rep = (obs held as, sim held as, ncat held as): the same categories handed over in
+        another container / integer type / layout (no Coq case: the values are those of rep=None)"""
         kw = {} if ncat is None else {"ncat": ncat}
         replay = {"call": "confusion_matrix", "obs": obs, "sim": sim, "ncat": ncat}
+        aobs, asim, held, kp = obs, sim, "", "C04/confusion_matrix/"
+        if rep is not None:
+            aobs, asim = int_repr(rng, obs, rep[0]), int_repr(rng, sim, rep[1])
+            if aobs is None or asim is None:
+                return
+            if ncat is not None and rep[2] == "numpy":
+                kw = {"ncat": np.int64(ncat)}
+            replay.update(obs_held_as=rep[0], sim_held_as=rep[1], ncat_held_as=rep[2],
+                          input_class="stored representation of the category series")
+            held = f" [obs held as {rep[0]}, sim as {rep[1]}]"
+            kp += "stored-representation/"
+            cm.mark(replay)
         try:
-            df = metrics.confusion_matrix(obs, sim, **kw)
-            vals = df.values
-            rows = [int(v) for v in df.index]
-            cols = [int(v) for v in df.columns]
-            tab = [[int(v) if float(v) == int(v) else -999 for v in r] for r in vals.tolist()]
-            res = (rows, cols, tab)
+            df = metrics.confusion_matrix(aobs, asim, **kw)
+            res = table_of(df)
         except ValueError:
             res, df = None, None
+        except Exception as e:      # noqa: BLE001
+            if rep is None:
+                raise
+            res, df = None, None
+            replay["exception"] = repr(e)
         replay["impl"] = res
         ncats = len(set(obs) | set(sim))
-        i = add(term_conf(ncat, obs, sim, res), replay,
-                ("conf", ncat is None, min(len(obs), 4), ncats,
-                 None if not obs else max(obs + sim) + 1 - ncats, res is None))
+        if rep is None:
+            i = add(term_conf(ncat, obs, sim, res), replay,
+                    ("conf", ncat is None, min(len(obs), 4), ncats,
+                     None if not obs else max(obs + sim) + 1 - ncats, res is None))
+        else:
+            i = None
+            ctx.count(("conf-repr", rep[0].split(":")[0], rep[1].split(":")[0], ncat is None, min(len(obs), 4)))
+        # the table returned by the previous call is still that table
+        prev, kept["conf"] = kept["conf"], None
+        if prev is not None and df is not None:
+            orc["result of an earlier call unchanged by a later call"] += 1
+            try:
+                now = table_of(prev[0])
+            except Exception as e:      # noqa: BLE001
+                now = repr(e)
+            if now != prev[1] or prev[0] is df:
+                fail(None, "C04/confusion_matrix/earlier-result-changed-by-later-call",
+                     f"the table returned for {prev[2]['obs']} / {prev[2]['sim']} was {prev[1]}; after the "
+                     f"call for {obs} / {sim} the same object holds {now}",
+                     {"call": "confusion_matrix twice", "first": prev[2], "then": replay, "first_result_now": now,
+                      "input_class": "operation sequence: an earlier result inspected after a later call"})
+        if df is not None:
+            kept["conf"] = (df, res, replay)
         if len(obs) != len(sim) or not obs:
             return
         if res is None:
-            fail(i, "C04/confusion_matrix/exception", "confusion_matrix raised on valid category series")
+            fail(i, kp + "exception", "confusion_matrix raised on valid category series" + held, replay)
             return
         rows, cols, tab = res
-        orc["confusion matrix = pair counts"] += 1
+        orc["confusion matrix = pair counts" + (" (stored representations)" if rep else "")] += 1
         count = {}
         for a, b in zip(obs, sim):
             count[(a, b)] = count.get((a, b), 0) + 1
         total = sum(sum(r) for r in tab)
         where = "inferred-ncat" if ncat is None else "given-ncat"
         if total != len(obs):
-            fail(i, f"C04/confusion_matrix/pairs-lost/{where}",
-                 f"confusion_matrix({obs}, {sim}, ncat={ncat}) holds {total} of the {len(obs)} pairs: {tab}")
+            fail(i, kp + f"pairs-lost/{where}",
+                 f"confusion_matrix({obs}, {sim}, ncat={ncat}) holds {total} of the {len(obs)} pairs: {tab}" + held,
+                 replay)
             return
         for (a, b), c in count.items():
             if a not in rows or b not in cols or tab[rows.index(a)][cols.index(b)] != c:
-                fail(i, f"C04/confusion_matrix/wrong-count/{where}",
-                     f"pair ({a},{b}) occurs {c} times, table {rows}x{cols} = {tab}")
+                fail(i, kp + f"wrong-count/{where}",
+                     f"pair ({a},{b}) occurs {c} times, table {rows}x{cols} = {tab}" + held, replay)
                 return
         if ncat is not None and (rows != list(range(ncat)) or cols != list(range(ncat))
                                  or len(tab) != ncat or any(len(r) != ncat for r in tab)):
-            fail(i, "C04/confusion_matrix/not-requested-size",
-                 f"ncat={ncat} but the table has rows {rows} and columns {cols}")
+            fail(i, kp + "not-requested-size",
+                 f"ncat={ncat} but the table has rows {rows} and columns {cols}" + held, replay)
 
     # ------------------------------------------------------------------
     # binary scores
-    def do_bin(tab):
+    def snapshot(d):
+        return sorted((k, repr(float(v))) for k, v in d.items())
+
+    def do_bin(tab, rep=None, arg=None):
+        """rep: the same four counts handed over in another container / integer type / layout,
+        or (rep = "pipeline") as the table `arg` returned by confusion_matrix"""
         (tn, fp), (fn, tp) = tab
+        held, kp = "", "C04/binary/"
+        if rep is not None:
+            if arg is None:
+                arg = table_repr(rng, tab, rep)
+            if arg is None:
+                return
+            held = f" [table held as {rep}]"
+            kp += "stored-representation/"
+            cm.mark({"call": "binary", "table": tab, "table_held_as": rep})
+        else:
+            arg = tab
         try:
             with np.errstate(all="ignore"):
-                s, _ = metrics.binary(tab)
+                s, _ = metrics.binary(arg)
             res = ("ok", s)
         except (ValueError, ZeroDivisionError, OverflowError) as e:
+            res = ("err", type(e).__name__ + ": " + str(e))
+        except Exception as e:      # noqa: BLE001
+            if rep is None:
+                raise
             res = ("err", type(e).__name__ + ": " + str(e))
         ad, bc = tp * tn, fp * fn
         replay = {"call": "binary", "table": tab,
                   "impl": res[1] if res[0] == "err" else {k: float(v) for k, v in res[1].items()}}
         mag = max(tn, fp, fn, tp)
-        exact_terms.append(term_bin(tab, res, 0.0))
-        i = add(term_bin(tab, res), replay,
-                ("bin", (ad > bc) - (ad < bc), 0 if mag <= 6 else 1 if mag < 30000 else 2, res[0]))
+        if rep is None:
+            exact_terms.append(term_bin(tab, res, 0.0))
+            i = add(term_bin(tab, res), replay,
+                    ("bin", (ad > bc) - (ad < bc), 0 if mag <= 6 else 1 if mag < 30000 else 2, res[0]))
+        else:
+            i = None
+            replay.update(table_held_as=rep, input_class="stored representation of the table")
+            ctx.count(("bin-repr", rep, (ad > bc) - (ad < bc), 0 if mag <= 6 else 1 if mag < 30000 else 2))
         if res[0] == "err":
-            fail(i, "C04/binary/exception",
-                 f"binary({tab}) raised {res[1]} (table with four positive counts)")
+            kept["bin"] = None
+            fail(i, kp + "exception",
+                 f"binary({tab}) raised {res[1]} (table with four positive counts)" + held, replay)
             return
         s = res[1]
-        orc["binary scores = contingency-table definitions"] += 1
+        # the scores returned by the previous call are still those scores; the scores just
+        # returned do not follow later changes of the caller's table
+        prev, kept["bin"] = kept["bin"], (s, snapshot(s), replay)
+        if prev is not None:
+            orc["result of an earlier call unchanged by a later call"] += 1
+            now = snapshot(prev[0])
+            if now != prev[1] or prev[0] is s:
+                fail(None, "C04/binary/earlier-result-changed-by-later-call",
+                     f"binary({prev[2]['table']}) returned {dict(prev[1])}; after binary({tab}) the same "
+                     f"dictionary holds {dict(now)}",
+                     {"call": "binary twice", "first": prev[2], "then": replay, "first_result_now": dict(now),
+                      "input_class": "operation sequence: an earlier result inspected after a later call"})
+        if isinstance(arg, np.ndarray) and arg.flags.writeable:
+            arg[...] = 1
+            orc["result unchanged by a later change of the caller's table"] += 1
+            if snapshot(s) != kept["bin"][1]:
+                fail(None, "C04/binary/result-follows-the-callers-table",
+                     f"binary({tab}) returned {dict(kept['bin'][1])}; after the caller overwrote its table with "
+                     f"ones the returned dictionary holds {dict(snapshot(s))}" + held,
+                     dict(replay, after_overwriting_the_table=dict(snapshot(s))))
+            s = dict(kept["bin"][1])
+            s = {k: float(v) for k, v in s.items()}
+        orc["binary scores = contingency-table definitions" + (" (stored representations)" if rep else "")] += 1
         want = {
             "hitrate": Fraction(tp, tp + fn), "falsealarm": Fraction(fp, fp + tn),
             "precision": Fraction(tp, tp + fp), "accuracy": Fraction(tp + tn, tp + tn + fp + fn),
@@ -1183,9 +1293,11 @@ def run(ctx):
                 mode = "nan"
                 if k == "ORSS":
                     mode = "nan-odds-ratio-" + ("above-1" if ad > bc else "at-1" if ad == bc else "below-1")
-                fail(i, f"C04/binary/{k}/{mode}", f"binary({tab})[{k}] is NaN, definition gives {float(w)!r}")
+                fail(i, kp + f"{k}/{mode}", f"binary({tab})[{k}] is NaN, definition gives {float(w)!r}" + held,
+                     replay)
             elif abs(v - float(w)) > (1e-12 + (1e-14 * ctheta if k == "ORSS" else 0)) * (1 + abs(float(w))):
-                fail(i, f"C04/binary/{k}/wrong-value", f"binary({tab})[{k}] = {v!r}, definition gives {float(w)!r}")
+                fail(i, kp + f"{k}/wrong-value",
+                     f"binary({tab})[{k}] = {v!r}, definition gives {float(w)!r}" + held, replay)
         # F1 is the harmonic mean of hit rate and precision
         h, pr = want["hitrate"], want["precision"]
         assert want["F1"] == 2 * h * pr / (h + pr)
@@ -1193,16 +1305,37 @@ def run(ctx):
         wm = (ad - bc) / math.sqrt(den)
         v = float(s["MCC"])
         if math.isnan(v) or abs(v - wm) > 1e-12 * (1 + abs(wm)) or abs(v) > 1 + 1e-12:
-            fail(i, "C04/binary/MCC/" + ("nan" if math.isnan(v) else "wrong-value"),
-                 f"binary({tab})[MCC] = {v!r}, definition gives {wm!r}")
+            fail(i, kp + "MCC/" + ("nan" if math.isnan(v) else "wrong-value"),
+                 f"binary({tab})[MCC] = {v!r}, definition gives {wm!r}" + held, replay)
         wl = math.log(Fraction(ad, bc))
         v = float(s["LOR"])
         if math.isnan(v) or abs(v - wl) > 1e-12 + 1e-14 * ctheta + 1e-12 * abs(wl):
-            fail(i, "C04/binary/LOR/" + ("nan" if math.isnan(v) else "wrong-value"),
-                 f"binary({tab})[LOR] = {v!r}, log(TP*TN/(FP*FN)) = {wl!r}")
+            fail(i, kp + "LOR/" + ("nan" if math.isnan(v) else "wrong-value"),
+                 f"binary({tab})[LOR] = {v!r}, log(TP*TN/(FP*FN)) = {wl!r}" + held, replay)
         for k in ("truepos", "falsepos", "trueneg", "falseneg"):
             if int(s[k]) != {"truepos": tp, "falsepos": fp, "trueneg": tn, "falseneg": fn}[k]:
-                fail(i, f"C04/binary/{k}/wrong-value", f"binary({tab})[{k}] = {s[k]}")
+                fail(i, kp + f"{k}/wrong-value", f"binary({tab})[{k}] = {s[k]}" + held, replay)
+
+    def do_pipeline():
+        """event series -> confusion_matrix -> binary, the table handed over as returned"""
+        n = rng.choice([12, 40, 200, rng.randint(8, 400)])
+        po, hit = rng.choice([0.1, 0.3, 0.5, 0.8]), rng.choice([0.3, 0.5, 0.7, 0.9])
+        obs = [int(rng.random() < po) for _ in range(n)]
+        sim = [(o if rng.random() < hit else 1 - o) for o in obs]
+        obs[:4], sim[:4] = [0, 0, 1, 1], [0, 1, 0, 1]      # four positive counts
+        cnt = [[sum(1 for a, b in zip(obs, sim) if (a, b) == (i, j)) for j in (0, 1)] for i in (0, 1)]
+        ko, ks = rng.choice(["list", "bool", "bool", "int64", "uint8", "series:dates", "series:shuffled"]), \
+            rng.choice(["list", "bool", "int32", "series:text", "series:dup"])
+        ao = obs if ko == "list" else int_repr(rng, obs, ko)
+        as_ = sim if ks == "list" else int_repr(rng, sim, ks)
+        kw = rng.choice([{}, {"ncat": 2}])
+        cm.mark({"call": "confusion_matrix -> binary", "obs": obs, "sim": sim})
+        try:
+            table = metrics.confusion_matrix(ao, as_, **kw)
+        except Exception:      # noqa: BLE001 - reported by do_conf on the same kind of input
+            do_conf(obs, sim, kw.get("ncat"), (ko if ko != "list" else "tuple", ks if ks != "list" else "tuple", "python"))
+            return
+        do_bin(cnt, rep=f"the table returned by confusion_matrix(obs held as {ko}, sim as {ks}, {kw})", arg=table)
 
     for case in corpus:
         if case.get("kind") == "binary":
@@ -1226,12 +1359,24 @@ def run(ctx):
         ps = rng.sample(present, rng.randint(1, len(present)))
         obs = [rng.choice(po) for _ in range(n)]
         sim = [rng.choice(ps) for _ in range(n)]
-        do_conf(obs, sim, None if rng.random() < 0.5 else nc)
+        ncat = None if rng.random() < 0.5 else nc
+        do_conf(obs, sim, ncat)
+        if it % 2 == 0:
+            do_conf(obs, sim, ncat, (rng.choice(INT_REPS), rng.choice(INT_REPS), rng.choice(["python", "numpy"])))
     do_conf([0, 1], [0, 1, 1], None)
     do_conf([0, 1, 1], [0], 2)
 
     for tn, fp, fn, tp in itertools.product(range(1, 7), repeat=4):
         do_bin([[tn, fp], [fn, tp]])
+        if rng.random() < 0.12:
+            do_bin([[tn, fp], [fn, tp]], rep=rng.choice(TABLE_REPS))
+    for kind in TABLE_REPS:      # counts drawn over the whole range the storage type holds
+        top = {"int16": 32767, "uint8": 255, "uint16": 65535}.get(kind, 10 ** 6)
+        for it in range(ctx.scale(8, 60)):
+            hi = rng.choice([top, top, max(2, top // 3), max(2, int(math.isqrt(top)) + 2)])
+            do_bin([[rng.randint(1, hi), rng.randint(1, hi)], [rng.randint(1, hi), rng.randint(1, hi)]], rep=kind)
+    for it in range(ctx.scale(40, 300)):
+        do_pipeline()
     for it in range(ctx.scale(400, 5000)):
         mode = rng.random()
         hi = rng.choice([10, 100, 3000, 10 ** 5, 10 ** 6])
